@@ -238,6 +238,14 @@ func (p *Proof) VerifyWithChallenge(pk *gabikeys.PublicKey, reconstructedChallen
 	if (*proof)(p).ProofResult("alpha").Cmp(Parameters.bTwoZk) > 0 {
 		return false
 	}
+	// The commitments have to be nonzero residues: for Cr = Cu = 0 mod n every commitment
+	// reconstructed from the proof is 0 whatever the responses are, so that the challenge could be
+	// computed without a witness.
+	// (A prover that refreshed its commitment after a witness update sends Cu unreduced, so we
+	// look at the residues.)
+	if new(big.Int).Mod(p.Cr, pk.N).Sign() == 0 || new(big.Int).Mod(p.Cu, pk.N).Sign() == 0 {
+		return false
+	}
 	acc, err := p.SignedAccumulator.UnmarshalVerify(pk)
 	if err != nil {
 		return false
